@@ -6,6 +6,7 @@ import (
 	"math/rand"
 	"sort"
 	"strconv"
+	"strings"
 )
 
 // Ptr is a path into a JSON document.
@@ -69,7 +70,7 @@ func clone(v interface{}) interface{} {
 }
 
 // EditKinds are the structural edits applied at a pointer.
-var EditKinds = []string{"delete", "null", "string", "number", "bool", "array", "object", "rename-empty", "rename-dotted", "rename-sibling", "ref-nowhere", "ref-sibling", "ref-xsibling", "name-dotted", "transplant", "dup-into-array"}
+var EditKinds = []string{"delete", "null", "string", "number", "bool", "array", "object", "rename-empty", "rename-dotted", "rename-sibling", "ref-nowhere", "ref-sibling", "ref-xsibling", "name-dotted", "case-flip", "transplant", "dup-into-array"}
 
 // Edit is one structural edit.
 type Edit struct {
@@ -188,6 +189,20 @@ func Apply(doc interface{}, e Edit) interface{} {
 		}
 		m["description"] = "sibling of a reference"
 		m["default"] = "d"
+	case "case-flip":
+		// the same text in another letter case (enumerated values are case sensitive)
+		str, ok := cur.(string)
+		if !ok || strings.ToUpper(str) == str && strings.ToLower(str) == str {
+			return nil
+		}
+		if strings.ToUpper(str) != str {
+			set(strings.ToUpper(str[:1]) + str[1:])
+			if strings.ToUpper(str[:1]) == str[:1] {
+				set(strings.ToUpper(str))
+			}
+		} else {
+			set(strings.ToLower(str))
+		}
 	case "name-dotted":
 		// a parameter / header / property NAME (a value, not a key) made of repeated dotted segments
 		m, ok := cur.(map[string]interface{})
